@@ -25,7 +25,7 @@ EVID = os.path.join(ROOT, "evidence")
 REPO = "/repo"
 
 COMMON_FLAGS = ["-Z", "unstable-options", "-Z", "stubbing", "--no-assertion-reach-checks"]
-MEM_BUDGET_GB = int(os.environ.get("VERIF_MEM_GB", "50"))
+MEM_BUDGET_GB = int(os.environ.get("VERIF_MEM_GB", "56"))
 ENV = dict(os.environ, CARGO_NET_OFFLINE="true", CARGO_TERM_COLOR="never")
 
 
@@ -260,7 +260,7 @@ def run_job(job, tier):
     r = parse_kani(out)
     r.update({"h": job["h"], "wall_s": round(dt, 1), "rc": rc, "killed": killed, "log": logfile,
               "unwindset": resolve_unwindset(job)[1]})
-    crashed = ("Out of memory" in out or "CBMC failed with status" in out or "std::bad_alloc" in out)
+    crashed = ("Out of memory" in out or "CBMC failed" in out or "std::bad_alloc" in out or "run out of memory" in out)
     if killed or r["verdict"] is None or crashed:
         r["state"] = "inconclusive"
         why = killed or "no verdict"
